@@ -263,7 +263,13 @@ impl Sim {
                 let denoms: Vec<String> = spec.assets.iter().map(|a| self.asset_denom(*a, &pre)).collect();
                 let decimals: Vec<u8> = spec.assets.iter().map(|a| self.asset_decimals(*a)).collect();
                 let funds = self.w.creation_funds(&self.current_creation_fee);
-                let identifier = spec.explicit_id.map(|k| format!("x{k}"));
+                // 12.. : explicit identifiers that look like stored ones ("p.<n>" = a generated identifier,
+                // "o.x<k>" = the stored form of an explicit one): they live in their own namespace
+                let identifier = spec.explicit_id.map(|k| match k {
+                    0..=11 => format!("x{k}"),
+                    12..=14 => format!("p.{}", k - 11),
+                    _ => format!("o.x{}", k % 4),
+                });
                 let msg = pm::ExecuteMsg::CreatePool {
                     asset_denoms: denoms.clone(),
                     asset_decimals: decimals.clone(),
